@@ -12,7 +12,8 @@ QUICK = dict(MaxX=2, Throughputs={0, 2, 3}, Volumes={0, 2, 3, 6}, Limits={0, 1, 
 # initial-state enumeration is sequential in TLC: ~42 000 three-transfer scenarios keep the thorough run near 15 min
 # transfers whose limits differ by many orders of magnitude (limit 99 = 1e17, see PipeSem.Huge): three transfers, one
 # of them huge, overlapping so that the huge one ends while the others are still active
-HUGE = dict(MaxX=3, Throughputs={1}, Volumes={1, 3}, Limits={1, 99}, Starts={0, 2}, Cancels={0, 1})
+# (throughput 98 = Pipe(throughput=math.inf))
+HUGE = dict(MaxX=3, Throughputs={1, 98}, Volumes={1, 3}, Limits={0, 1, 99}, Starts={0, 2}, Cancels={0})
 THOROUGH = dict(MaxX=3, Throughputs={0, 2, 3}, Volumes={3, 6}, Limits={0, 1, 6}, Starts={0, 1}, Cancels={0, 2})
 
 
@@ -20,8 +21,11 @@ def program(sc, mode='cancel'):
     """every transfer is a task started at its date; the root cancels the ones with a cancel date (mode cancel), or
     the transfer is the child of an until(delay) block that closes it forcefully at that date (mode close)"""
     root = [{'op': 'open', 'kind': 'scope', 'catch': True}]
-    for i, x in enumerate(sc['xs']):
-        xfer = [{'op': 'transfer', 'i': i + 1, 'v': x['v'], 'l': x['l']}]
+    xs = sc['xs']
+    if mode == 'twin':      # the same transfers on a second, independent pipe of the same throughput (numbered n+1 .. 2n)
+        xs = list(xs) + list(xs)
+    for i, x in enumerate(xs):
+        xfer = [{'op': 'transfer', 'i': i + 1, 'v': x['v'], 'l': x['l'], 'pipe': 2 if i >= len(sc['xs']) else 1}]
         if mode == 'close' and x['c'] > 0:
             xfer = [{'op': 'open', 'kind': 'until_d', 'catch': True, 'd': x['c']},
                     {'op': 'do', 's': -1, 'vol': False, 'fin': 'none', 'd': 0, 'prog': xfer}, {'op': 'leave'}]
@@ -30,7 +34,7 @@ def program(sc, mode='cancel'):
         root.append({'op': 'leave'})
         return [root]
     now = 0
-    for date, k in sorted((x['s'] + x['c'], i + 2) for i, x in enumerate(sc['xs']) if x['c'] > 0):
+    for date, k in sorted((x['s'] + x['c'], i + 2) for i, x in enumerate(xs) if x['c'] > 0):
         if date > now:
             root.append({'op': 'sleep', 'd': date - now})
             now = date
@@ -44,7 +48,14 @@ def _one(job):
     head = {'e': 'sc', 'a': 0, 'P': sc['P'], 'xs': sc['xs'], 'mode': mode}
     log, outcome = puppet.run_program(program(sc, mode), nroots=1, pipe=sc['P'], head=head)
     # the monitor needs the scenario, the transfer events and how the run ended
-    return [e for e in log if e['e'] in ('sc', 'xb', 'xr', 'xu', 'xbad', 'fin')]
+    keep = [e for e in log if e['e'] in ('sc', 'xb', 'xr', 'xu', 'xbad', 'fin')]
+    if mode != 'twin':
+        return keep
+    # twin run: two pipes must not influence each other - each pipe's events alone must follow the fluid model
+    n = len(sc['xs'])
+    first = [e for e in keep if 'i' not in e or e['i'] <= n]
+    second = [dict(e, i=e['i'] - n) if 'i' in e else e for e in keep if 'i' not in e or e['i'] > n]
+    return first, second
 
 
 def run(check):
@@ -77,7 +88,7 @@ def run(check):
     if r.errors or r.violated:
         raise core.MachineryError('Pipe.tla (huge limits): %s' % (r.violated or r.errors)[:3])
     more, bad = parse_witnesses(r)
-    more = [sc for sc in more if any(x['l'] == 99 for x in sc['xs'])]
+    more = [sc for sc in more if any(x['l'] == 99 for x in sc['xs']) or sc['P'] == 98]
     check.states += r.distinct
     check.transitions += r.generated
     check.tlc_runs.append({'label': 'scenarios_huge_limits', 'module': 'Pipe', 'constants': core._jsonable(HUGE),
@@ -87,8 +98,15 @@ def run(check):
     with multiprocessing.get_context('fork').Pool(16) as pool:
         # a transfer is ended early by Task.cancel() or, in a second run of the scenario, by a forced close
         jobs = [(sc, 'cancel') for sc in scenarios] + [(sc, 'close') for sc in scenarios if any(x['c'] > 0 for x in sc['xs'])]
+        # ... and, for a sample, on two independent pipes at once
+        jobs += [(sc, 'twin') for sc in scenarios[::4] if len(sc['xs']) >= 1]
         traces = pool.map(_one, jobs, chunksize=200)
-    runs = [(dict(sc, mode=mode), t, 1) for (sc, mode), t in zip(jobs, traces)]
+    runs = []
+    for (sc, mode), t in zip(jobs, traces):
+        if mode == 'twin':
+            runs += [(dict(sc, mode='twin'), t[0], 1), (dict(sc, mode='twin'), t[1], 1)]
+        else:
+            runs.append((dict(sc, mode=mode), t, 1))
     check.programs += len(runs)
     check.extra['exhaustive'] = True
     usimrun.judge(check, OBS, runs)
@@ -102,7 +120,9 @@ def replay(path):
     sc = body['program']
     trace = _one(({k: v for k, v in sc.items() if k != 'mode'}, sc.get('mode', 'cancel')))
     check = core.Check('C13', 'quick', 0)
-    rej = check.validate(OBS, [trace], label='replay')
+    traces = list(trace) if isinstance(trace, tuple) else [trace]
+    rej = check.validate(OBS, traces, label='replay')
+    trace = traces[rej[0][0]] if rej else traces[0]
     shutil.rmtree(check.tmp, ignore_errors=True)
     for e in trace:
         print(json.dumps(e))
